@@ -144,6 +144,9 @@ def run(report, index, tier):
         'emitted text.')
     rule_skeleton(report, index, 'R01.1')
     guard_tokens(report, index, M, 'R01.6')
+    from .arrays import array_rule
+    array_rule(report, index, M, 'R01.1e',
+               bound=11 if tier == 'thorough' else 8)
     E = FusionEngine(index)
     handlers = E.table('indent', indent_str='  ')
     handled = {k.name for k in handlers if not isinstance(k, tuple)}
@@ -156,7 +159,7 @@ def run(report, index, tier):
         'that walker.walk implements the rule semantics assumed '
         '(trusted, digest-guarded)',
         'indentation strings containing non-white-space',
-        'Array/Elision item lists (data-dependent ElisionJoinAttr)']
+        'array literals longer than the enumeration bound']
     report.trusted_base += [
         'transcription of walker.process_layouts (digest-guarded)',
         'regex front end of CPython (re._parser)',
